@@ -4,7 +4,8 @@ Patch header lines:  '# expect: fail [<substring of a failing obligation name>]'
 Also runs seeded/<name>/patch.diff (expect: fail, property from meta.json) when called with --seeded."""
 import sys, os, subprocess, glob, json, re
 root = os.path.dirname(os.path.dirname(os.path.abspath(__file__)))
-repo = "/repo"
+repo = os.environ.get("SELFTEST_REPO", "/repo")   # a scratch worktree of /repo may be used instead
+extra = "" if repo == "/repo" else " -repo " + repo
 def sh(cmd, **kw):
     return subprocess.run(cmd, shell=True, capture_output=True, text=True, **kw)
 def clean():
@@ -16,7 +17,7 @@ def run_one(pid, patch, expect, needle):
     if r.returncode != 0:
         return "PATCH-DOES-NOT-APPLY: " + r.stderr.strip()[:200]
     try:
-        r = sh("cd %s && ./check %s" % (root, pid))
+        r = sh("cd %s && ./check %s%s" % (root, pid, extra))
     finally:
         sh("git -C %s apply -R %s" % (repo, patch))
         sh("git -C %s checkout -- ." % repo)
@@ -48,7 +49,7 @@ def main():
             if not os.path.exists(mf): continue
             meta = json.load(open(mf))
             if args and meta["property"] not in args: continue
-            if meta.get("expected_detection", "yes") != "yes": continue
+            if meta.get("expected_detection", "yes") != "yes" and "--all-seeds" not in sys.argv: continue
             jobs.append((meta["property"], os.path.join(d, "patch.diff"), "fail", meta.get("obligation", "")))
     for pid, p, exp, needle in jobs:
         res = run_one(pid, p, exp, needle)
